@@ -88,12 +88,13 @@ type GuardedBy struct {
 }
 
 type ContractSet struct {
-	Funcs   map[string]*Contract
-	Specs   map[string]*SpecFunc // key: pkg-suffix + "." + name, plus bare name for stdlib-wide ones
-	Lemmas  []*Contract
-	Guarded []GuardedBy
-	Files   []string
-	Assumed []string // keys of trusted contracts
+	Funcs       map[string]*Contract
+	Specs       map[string]*SpecFunc // key: pkg-suffix + "." + name, plus bare name for stdlib-wide ones
+	Lemmas      []*Contract
+	Guarded     []GuardedBy
+	FloatLemmas []*FloatLemma
+	Files       []string
+	Assumed     []string // keys of trusted contracts
 }
 
 func newContractSet() *ContractSet {
@@ -103,7 +104,7 @@ func newContractSet() *ContractSet {
 var clauseKeywords = map[string]bool{
 	"func": true, "lemma": true, "spec": true, "pred": true, "props": true, "requires": true, "ensures": true, "let": true,
 	"invariant": true, "assert": true, "modifies": true, "nopanic": true, "panics_if": true, "pure": true, "inline": true,
-	"trusted": true, "ghost": true, "guarded_by": true, "unfold": true, "use": true, "entry": true, "opt": true, "loopmod": true, "package": true,
+	"trusted": true, "ghost": true, "guarded_by": true, "unfold": true, "use": true, "float_lemma": true, "shape": true, "equals": true, "range": true, "entry": true, "opt": true, "loopmod": true, "package": true,
 }
 
 // specLines extracts the //@ lines of a file as (text, line number)
@@ -297,9 +298,31 @@ func (cs *ContractSet) loadContractFile(path, pkgSuffix string) {
 		}
 	}
 	var cur *Contract
+	var curFL *FloatLemma
 	curPkg := pkgSuffix
 	for _, it := range items {
+		if it.kw != "float_lemma" && curFL != nil {
+			switch it.kw {
+			case "props":
+				curFL.Props = append(curFL.Props, strings.Fields(strings.ReplaceAll(it.rest, ",", " "))...)
+				continue
+			case "shape":
+				curFL.Shape = it.rest
+				continue
+			case "equals":
+				curFL.Equals = it.rest
+				continue
+			case "range":
+				curFL.Range = it.rest
+				continue
+			}
+			curFL = nil
+		}
 		switch it.kw {
+		case "float_lemma":
+			curFL = &FloatLemma{Name: strings.TrimSpace(it.rest), Pkg: curPkg, Where: it.where}
+			cs.FloatLemmas = append(cs.FloatLemmas, curFL)
+			cur = nil
 		case "package":
 			curPkg = it.rest
 		case "func":
@@ -429,6 +452,12 @@ func (cs *ContractSet) loadContractFile(path, pkgSuffix string) {
 				}
 				hdr := strings.Fields(rest[1:j])
 				expr := strings.TrimSpace(rest[j+1:])
+				if it.kw == "assert" && len(hdr) == 2 && hdr[0] == "call" {
+					// assert @call Name#k: expr   -- checked immediately before the k-th call of Name
+					key := "call:" + hdr[1]
+					cur.AssertAt[key] = append(cur.AssertAt[key], mkClause(expr, it.where))
+					continue
+				}
 				if len(hdr) < 2 || hdr[0] != "loop" {
 					panic(it.where + ": expected '@loop k'")
 				}
